@@ -63,7 +63,7 @@ func workerMain() {
 			out.Flush()
 			continue
 		}
-		if c := line[0]; c == 'P' || c == 'Q' || c == 'M' || c == 'H' {
+		if c := line[0]; c == 'P' || c == 'Q' || c == 'M' || c == 'H' || c == 'C' {
 			var rep wReply
 			switch c {
 			case 'P':
@@ -72,6 +72,8 @@ func workerMain() {
 				rep = equalServe(strings.TrimSpace(line[1:]))
 			case 'H':
 				rep = heldServe(strings.TrimSpace(line[1:]))
+			case 'C':
+				rep = ctorServe(int(line[1] - '0'))
 			default:
 				rep = miscServe()
 			}
